@@ -1,14 +1,166 @@
 // Package verifrt is the runtime of the verification seams. It is copied into
 // a throw-away copy of the repository by /verif/lib/build.sh; it is not part
-// of paulmach/orb. With no hook installed every function is a load and a branch.
+// of paulmach/orb. With no hook installed every function is a load and a
+// branch, and map loops run in Go's own (random) order.
 package verifrt
+
+import (
+	"fmt"
+	"sort"
+)
 
 // YieldHook, when set, is called at every instrumented scheduling point.
 var YieldHook func(site int)
+
+// SpinSite is the site id reported by a lock-acquisition retry: the scheduler
+// must let somebody else run.
+const SpinSite = -1000
 
 // Yield is inserted before statements of instrumented packages.
 func Yield(site int) {
 	if h := YieldHook; h != nil {
 		h(site)
 	}
+}
+
+// SpinYield is the body of a rewritten Lock(): `for !mu.TryLock() { SpinYield() }`.
+func SpinYield() {
+	if h := YieldHook; h != nil {
+		h(SpinSite)
+	}
+}
+
+// MapHook decides map iteration. Order returns the visiting order of n keys
+// (given in canonical order) as a permutation of [0,n). Created is asked for
+// each key created while the loop runs: produce it or not, and if so at which
+// of the remaining positions [0,remaining].
+type MapHook interface {
+	Order(site int, where string, n int) []int
+	Created(site int, where string, remaining int) (produce bool, at int)
+}
+
+// Hook is the installed map hook (nil: Go semantics with Go's own order).
+var Hook MapHook
+
+// MapIter is the untyped half of a generated map iterator. It implements the
+// language semantics of `range` over a map, not the runtime's: the key set is
+// snapshotted at loop entry, keys deleted before they are reached are skipped
+// (by the typed half), the value is read when the key is visited, and a key
+// created during the loop may or may not be produced.
+type MapIter struct {
+	site  int
+	where string
+	keys  []interface{}
+	pos   int
+	seen  map[interface{}]struct{}
+	// Len is the map length the iterator last looked at.
+	Len int
+}
+
+func canon(keys []interface{}) {
+	if len(keys) < 2 {
+		return
+	}
+	r := make([]string, len(keys))
+	for i, k := range keys {
+		r[i] = fmt.Sprintf("%#v", k)
+	}
+	sort.Sort(&byRender{keys, r})
+}
+
+type byRender struct {
+	k []interface{}
+	r []string
+}
+
+func (b *byRender) Len() int           { return len(b.k) }
+func (b *byRender) Less(i, j int) bool { return b.r[i] < b.r[j] }
+func (b *byRender) Swap(i, j int) {
+	b.k[i], b.k[j] = b.k[j], b.k[i]
+	b.r[i], b.r[j] = b.r[j], b.r[i]
+}
+
+// Init receives the snapshot of the keys (in Go's order).
+func (it *MapIter) Init(site int, where string, keys []interface{}) {
+	it.site, it.where, it.Len = site, where, len(keys)
+	h := Hook
+	if h == nil || len(keys) < 2 {
+		if h != nil {
+			canon(keys)
+		}
+		it.keys = keys
+		return
+	}
+	canon(keys)
+	order := h.Order(site, where, len(keys))
+	out := make([]interface{}, 0, len(keys))
+	used := make([]bool, len(keys))
+	for _, i := range order {
+		if i >= 0 && i < len(keys) && !used[i] {
+			used[i] = true
+			out = append(out, keys[i])
+		}
+	}
+	for i, k := range keys { // a hook that returns a partial order still visits everything
+		if !used[i] {
+			out = append(out, k)
+		}
+	}
+	it.keys = out
+}
+
+// Seen reports whether k was in the snapshot or has been dealt with since.
+func (it *MapIter) Seen(k interface{}) bool {
+	if it.seen == nil {
+		it.seen = make(map[interface{}]struct{}, len(it.keys))
+		for _, x := range it.keys {
+			it.seen[x] = struct{}{}
+		}
+	}
+	_, ok := it.seen[k]
+	return ok
+}
+
+// Created handles keys that appeared in the map since the last look.
+func (it *MapIter) Created(fresh []interface{}, newLen int) {
+	it.Len = newLen
+	if len(fresh) == 0 {
+		return
+	}
+	it.Seen(fresh[0]) // make sure the set exists
+	h := Hook
+	if h != nil {
+		canon(fresh)
+	}
+	for _, k := range fresh {
+		it.seen[k] = struct{}{}
+		if h == nil {
+			continue // never produced: allowed by the language
+		}
+		remaining := len(it.keys) - it.pos
+		produce, at := h.Created(it.site, it.where, remaining)
+		if !produce {
+			continue
+		}
+		if at < 0 {
+			at = 0
+		}
+		if at > remaining {
+			at = remaining
+		}
+		i := it.pos + at
+		it.keys = append(it.keys, nil)
+		copy(it.keys[i+1:], it.keys[i:])
+		it.keys[i] = k
+	}
+}
+
+// Next returns the next key of the order.
+func (it *MapIter) Next() (interface{}, bool) {
+	if it.pos >= len(it.keys) {
+		return nil, false
+	}
+	k := it.keys[it.pos]
+	it.pos++
+	return k, true
 }
